@@ -1785,10 +1785,44 @@ fn gen_fuzz_case(r: &mut Rng, stats: &mut HashMap<String, usize>) -> (String, Ve
         src.push('\n');
     }
     let mut cmds = vec!["inew".to_string(), format!("iadd {}", hex(&src))];
-    // execution is attempted by the driver-independent rule: accepted and small
-    cmds.push("isym new".into());
-    cmds.push(format!("isym finish {}", r.next() >> 1));
+    // execution is attempted by the driver-independent rule: accepted and small (a mutation can turn `q[3]` into `q[30]`:
+    // 2^30 amplitudes are a matter of memory and time, not of the property; such a program is interpreted, not run)
+    if declared_qubits(&src) <= 14 {
+        cmds.push("isym new".into());
+        cmds.push(format!("isym finish {}", r.next() >> 1));
+    } else {
+        *stats.entry("not-run.large-register".into()).or_default() += 1;
+    }
     (format!("mut={label}"), cmds)
+}
+
+/// the sum of the sizes in all `qreg name[size]` declarations of a source text (saturating; by text, so that the decision
+/// does not depend on what the interpreter makes of the program)
+fn declared_qubits(src: &str) -> usize {
+    let b = src.as_bytes();
+    let mut total = 0usize;
+    let mut i = 0;
+    while i + 4 <= b.len() {
+        if &b[i..i + 4] == b"qreg" {
+            let mut j = i + 4;
+            while j < b.len() && b[j] != b'[' && b[j] != b';' {
+                j += 1;
+            }
+            if j < b.len() && b[j] == b'[' {
+                let mut k = j + 1;
+                let mut n = 0usize;
+                while k < b.len() && b[k].is_ascii_digit() {
+                    n = n.saturating_mul(10).saturating_add((b[k] - b'0') as usize);
+                    k += 1;
+                }
+                total = total.saturating_add(n);
+            }
+            i = j;
+        } else {
+            i += 1;
+        }
+    }
+    total
 }
 
 /// C09: one call of gates::process per case, every accepted name.
